@@ -42,7 +42,8 @@ pub enum Ast {
     Modifier { on: Fl, off: Fl, body: Box<Ast> },
 }
 
-const CHARS: &[u32] = &[0x61, 0x62, 0x63, 0x61, 0x62, 0xE9, 0x4B, 0x73, 0x17F, 0x212A, 0xDF, 0x1F600, 0x0A, 0x78, 0x5F, 0x31, 0x41, 0x53];
+const CHARS: &[u32] = &[0x61, 0x62, 0x63, 0x61, 0x62, 0xE9, 0x4B, 0x73, 0x17F, 0x212A, 0xDF, 0x1F600, 0x0A, 0x78, 0x5F, 0x31, 0x41, 0x53,
+    0x7F, 0x80, 0x7FF, 0x800, 0xFFFF, 0x10000, 0xFF01];
 const NAMES: &[&str] = &["a", "b", "n"];
 
 pub struct G<'a> {
@@ -520,7 +521,8 @@ pub fn spec_tokens(a: &Ast, fl: Fl, cx: &mut Ctx, out: &mut String) -> bool {
     true
 }
 
-const HAY_ALPHA: &[&str] = &["a", "b", "c", "a", "b", "é", "K", "k", "s", "S", "\u{17F}", "\u{212A}", "ß", "\u{1F600}", "\n", "x", "_", "1", "A", "\u{2028}", "É", "ẞ"];
+const HAY_ALPHA: &[&str] = &["a", "b", "c", "a", "b", "é", "K", "k", "s", "S", "\u{17F}", "\u{212A}", "ß", "\u{1F600}", "\n", "x", "_", "1", "A", "\u{2028}", "É", "ẞ",
+    "\x7f", "\u{80}", "\u{7FF}", "\u{800}", "\u{FFFF}", "\u{10000}", "\u{FF01}"];
 
 /// Deterministic family: every body in every context under several flag sets (run by shard 0).
 fn spec_family() -> Vec<(Ast, &'static str)> {
